@@ -18,10 +18,10 @@ type Run struct {
 	N int  `json:"n"`
 }
 type CaseC14 struct {
-	Algo     string `json:"algo"`
-	Runs     []Run  `json:"runs,omitempty"`
+	Algo     string   `json:"algo"`
+	Runs     []Run    `json:"runs,omitempty"`
 	Raw      HexBytes `json:"raw,omitempty"`
-	Consumed int    `json:"consumed"` // bytes written before the data and read away again
+	Consumed int      `json:"consumed"` // bytes written before the data and read away again
 }
 
 func (c *CaseC14) data() []byte {
@@ -151,15 +151,32 @@ func TestC14(t *testing.T) {
 						continue
 					}
 					d = append(d, byte(b))
-					cc := &CaseC14{Algo: algo, Raw: append(HexBytes{}, d...)}
-					c14Record(cc, d, "exhaustive")
-					if !Direct(t, "C14", "c14", "exhaustive/"+algo, cc, oracleC14) {
-						return false
+					cc := &CaseC14{Algo: algo, Raw: d}
+					if depth == 2 {
+						// innermost level of the thorough tier: accounted in bulk (distinct by construction)
+						if f := oracleC14(cc); f != nil {
+							cc.Raw = append(HexBytes{}, d...)
+							Direct(t, "C14", "c14", "exhaustive/"+algo, cc, oracleC14)
+							return false
+						}
+					} else {
+						cc.Raw = append(HexBytes{}, d...)
+						c14Record(cc, d, "exhaustive")
+						if !Direct(t, "C14", "c14", "exhaustive/"+algo, cc, oracleC14) {
+							return false
+						}
 					}
 					if depth+1 < maxLen && !rec(depth+1) {
 						return false
 					}
 					d = d[:len(d)-1]
+				}
+				if depth == 2 {
+					nt := int64(128) // last byte >= 0x80
+					if d[0] >= 0x80 || d[1] >= 0x80 {
+						nt = 256
+					}
+					Col.Bulk(256, nt, "exhaustive-len3")
 				}
 				return true
 			}
@@ -170,8 +187,8 @@ func TestC14(t *testing.T) {
 	// (2) fixed long cases in every run: sums that cross 2^31
 	t.Run("long", func(t *testing.T) {
 		long := [][]Run{
-			{{0xFF, 8421505}},                  // 0xFF * 8421505 = 2^31 + 127
-			{{0xFF, 8421504}, {0x80, 1}},       // exactly 2^31
+			{{0xFF, 8421505}},                    // 0xFF * 8421505 = 2^31 + 127
+			{{0xFF, 8421504}, {0x80, 1}},         // exactly 2^31
 			{{0x80, 10 << 20}, {0xFF, 10 << 20}}, // 20 MiB of high bytes
 		}
 		for i, runs := range long {
